@@ -54,17 +54,19 @@ PROPS = {
         ],
     },
     "C11": {
-        "units": ["account"],
+        "units": ["account", "acctproto"],
         "design_ref": "DESIGN.md section 5 C11",
         "technique": "Verus function contracts over a ghost record of what the CA holds; signing-key preconditions on the account requests",
         "text": "Deductive proof that synchronize registers only when no account URL is stored or the external binding changed, otherwise sends at "
                 "most one key roll-over and one contact update, the roll-over first, each request being authorised by the key the CA holds, and "
                 "leaves the CA's record and the stored fingerprints in line with the configuration; that a changed key type or algorithm keeps the "
                 "old key among the superseded ones, creates a key of the configured type and saves at once; and that the roll-over is authorised by "
-                "the superseded key whose fingerprint is stored.",
+                "the superseded key whose fingerprint is stored; that the three request functions of acme_proto/account.rs meet the contracts synchronize relies on "
+                "(which key signs, what is stored and saved afterwards, re-registration when the CA has dropped the account), and that every per-endpoint setter changes only its own field of its own endpoint.",
         "assumptions": [
-            "T: register_account / update_account_contacts / update_account_key (acme_proto/account.rs) are contracts here: what they send and what the CA then holds is stated, not proved",
-            "T: fingerprints (SHA-256 of key PEM / contacts / binding) are uninterpreted; HashMap lookup by endpoint name is ep_of",
+            "T: the CA's side of newAccount / account update / keyChange (prelude/acct_shims.rs: it records the signer of a newAccount, honours an update only when signed by the key it holds, "
+            "replaces contacts or key as the payload says) and the readings of the payload structures (structs/account.rs) are stated, not proved; encode_jwk / encode_kid appear as relations (proved in unit jws)",
+            "T: fingerprints (SHA-256 of key PEM / contacts / binding) are uninterpreted; HashMap<String, AccountEndpoint> is a map from endpoint names (get / get_mut / entry shims)",
             "X: persistence (bincode round trip, a truncated file refusing start-up) - account/storage.rs is iterator- and serde-heavy and not under contract; "
             "multi-restart histories are covered as 'any stored state in step with the CA', not enumerated",
         ],
@@ -167,7 +169,7 @@ PROPS = {
         ],
     },
     "C04": {
-        "units": ["jws", "http", "keys", "issue"],
+        "units": ["jws", "http", "keys", "issue", "acctproto"],
         "design_ref": "DESIGN.md section 5 C04",
         "technique": "Verus function contracts: JWS structure as a spec predicate over uninterpreted base64url/serialisation/signature relations; nonce and URL binding as preconditions of the transmission",
         "text": "Deductive proof that encode_jwk/encode_kid/encode_kid_mac produce the flattened JWS of RFC 7515 with exactly the header "
@@ -178,7 +180,7 @@ PROPS = {
             "T: serde_json serialises the header/data structs field by field, omitting None members (ser_spec is uninterpreted); base64url and UTF-8 are uninterpreted",
             "T: KeyPair::sign returns a signature valid for (key, alg, input) (relation valid_sig; its algorithm/key compatibility and ECDSA padding are in unit keys)",
             "X: verification of signatures by an independent implementation; nonce freshness across calls against servers that omit Replay-Nonce on error responses; "
-            "which key and account URL the data-builder closures bind (request_certificate / account flows)",
+            "which key and account URL the data-builder closures of request_certificate bind is asserted at their creation (unit issue), not at the send",
         ],
     },
     "C05": {
